@@ -105,6 +105,7 @@ fn primitives(ctx: &mut Ctx, rng: &mut Rng, x: &[u8]) {
         })
         .collect();
     let xv = x.to_vec();
+    let xv2 = x.to_vec();
     let sc = script.clone();
     let r = guarded(runaway_budget(len), move || {
         let mut ds = DNSSector::new(xv).unwrap();
@@ -157,6 +158,13 @@ fn primitives(ctx: &mut Ctx, rng: &mut Rng, x: &[u8]) {
             }
             if bad.is_some() {
                 break;
+            }
+        }
+        // whatever the cursor was asked to do, the sector still holds exactly the input bytes and gives them back
+        if bad.is_none() {
+            let back = ds.into_packet();
+            if back != xv2 {
+                bad = Some("into_packet() after cursor calls does not give back the input bytes".into());
             }
         }
         (bad, calls)
